@@ -9,17 +9,17 @@ cd "$WT" || exit 2
 OUT=/verif/seeded/$ID; mkdir -p "$OUT"
 LOG="$OUT/confirm.log"; : > "$LOG"
 say() { echo "$@" | tee -a "$LOG"; }
-git checkout -q -- . ; git clean -fdq src tests
+git reset -q --hard HEAD; git clean -fdq -e OUT -e target
 git apply OUT/patch.diff || { say "patch does not apply"; exit 2; }
 say "== 1. full suite with the change (demo not applied)"
 cargo test --offline --workspace --no-fail-fast -j 8 > "$OUT/suite_with_change.txt" 2>&1; rc=$?
 grep -E "^test result" "$OUT/suite_with_change.txt" | tee -a "$LOG"; say "suite rc=$rc"
 git apply OUT/demo.diff || { say "demo does not apply"; exit 2; }
 say "== 2. demo with the change (must fail)"
-cargo test --offline -j 8 --lib $FILTER > "$OUT/demo_with_change.txt" 2>&1; rc_with=$?
+cargo test --offline -j 8 ${DEMO_TARGET:---lib} $FILTER > "$OUT/demo_with_change.txt" 2>&1; rc_with=$?
 grep -E "^test result|panicked|FAILED|signal" "$OUT/demo_with_change.txt" | head -8 | tee -a "$LOG"; say "demo-with rc=$rc_with"
 say "== 3. demo without the change (must pass)"
 git apply -R OUT/patch.diff
-cargo test --offline -j 8 --lib $FILTER > "$OUT/demo_without_change.txt" 2>&1; rc_without=$?
+cargo test --offline -j 8 ${DEMO_TARGET:---lib} $FILTER > "$OUT/demo_without_change.txt" 2>&1; rc_without=$?
 grep -E "^test result" "$OUT/demo_without_change.txt" | tee -a "$LOG"; say "demo-without rc=$rc_without"
 if [ $rc -eq 0 ] && [ $rc_with -ne 0 ] && [ $rc_without -eq 0 ]; then say "CONFIRMED $ID"; else say "NOT CONFIRMED $ID"; fi
